@@ -3,12 +3,28 @@ use crate::io;
 use crate::path::{Path, PathBuf};
 use std::task::Poll;
 pub use std::fs::Metadata;
+use std::future::Future;
+use std::pin::Pin;
+use std::task::Context;
+
+struct FsGate;
+impl Future for FsGate {
+    type Output = ();
+    fn poll(self: Pin<&mut Self>, _cx: &mut Context<'_>) -> Poll<()> {
+        if zx_rt::fs_may_proceed() {
+            Poll::Ready(())
+        } else {
+            Poll::Pending
+        }
+    }
+}
 pub struct ReadDir;
 fn sp<P: AsRef<Path>>(p: &P) -> std::path::PathBuf {
     let p: &std::path::Path = p.as_ref().into();
     p.to_path_buf()
 }
 pub async fn metadata<P: AsRef<Path>>(p: P) -> io::Result<Metadata> {
+    FsGate.await;
     std::fs::metadata(sp(&p))
 }
 pub async fn symlink_metadata<P: AsRef<Path>>(p: P) -> io::Result<Metadata> {
